@@ -23,7 +23,7 @@ Inductive dkind :=
 | DTrunc (c s seed n : N).       (* an honest datagram cut to n bytes *)
 Inductive uop :=
 | ODgram (client cip : N) (k : dkind)
-| OStray (client : N) (v6 : bool) (sport len seed : N)   (* a datagram to the client's NAT socket from another sender on loopback *)
+| OStray (client : N) (srckind : N) (sport len seed : N)  (* a datagram to the client's NAT socket from another port of the local address of target kind [srckind] *)
 | OExpireAll.                    (* idle for longer than the NAT timeout: every association expires *)
 
 Record robs := { r_status : N; r_from : bytes; r_body : N * N; r_tb : Z; r_cb : Z }.   (* reply seen by the client + its report *)
@@ -172,13 +172,13 @@ Fixpoint run_ops (e : env) (validate : bool) (st : ustate) (i : N) (ops : list u
         | _, _ => (e1, [])
         end in
       {| d_sent := sent; d_new := nw; d_report := rep; d_replies := reps; d_removed := 0 |} :: run_ops e2 validate st' (i + 1) r
-  | OStray client v6 sport len seed :: r =>
+  | OStray client srckind sport len seed :: r =>
       (* a sender the client never addressed writes to the client's NAT socket: the datagram goes to
          that client (and, in the harness, to nobody else) with the sender's address in front *)
       match alookup N.eqb client (u_nat st) with
       | None => {| d_sent := None; d_new := None; d_report := None; d_replies := []; d_removed := 0 |} :: run_ops e validate st (i + 1) r
       | Some a =>
-          let src := if v6 then V16 1 else V4 (v4 127 0 0 1) in
+          let src := target_ip srckind in
           let '(e1, ro) := one_reply e st (client_is_v6 client) (as_sock a) src sport (i * 1000 + 1) (i * 77) len seed in
           {| d_sent := None; d_new := None; d_report := None;
              d_replies := match ro with Some x => [x] | None => [] end; d_removed := 0 |} :: run_ops e1 validate st (i + 1) r
